@@ -5,7 +5,8 @@
    is covered. *)
 From Coq Require Import List NArith String Permutation.
 Import ListNotations.
-From Verif Require Import Common.NegoText Model.OfferShape Proofs.OfferShape.
+From Verif Require Import Common.Base Common.NegoText Model.OfferShape Model.OfferTrackDetails
+  Proofs.OfferShape Proofs.OfferTrackDetails.
 Open Scope string_scope.
 
 (* Sections of a successful offer = the remote description's usable media
@@ -109,7 +110,33 @@ Theorem c12_sender_without_track : forall s,
 Proof. exact sender_attrs_none. Qed.
 Print Assumptions c12_sender_without_track.
 
+(* trackDetailsFromSDP reads back what addSenderSDP wrote: for a sender with one
+   encoding whose track and stream ids contain no space, SSRCs that fit 32 bits
+   and non-zero repair SSRCs that differ from the primary SSRC and from each
+   other, the m-section's attributes yield exactly one track with that mid,
+   kind, stream id, track id, primary SSRC and RTX / FEC SSRCs. (More than one
+   encoding -- the simulcast envelope -- is covered by the correspondence suite
+   only.) *)
+Theorem c12_track_details_roundtrip : forall mid k tr ssrc rtx fec neg sent stopped,
+  no_space (k_id tr) = true -> no_space (k_stream tr) = true ->
+  (ssrc < 4294967296)%N -> (rtx < 4294967296)%N -> (fec < 4294967296)%N ->
+  (rtx = 0 \/ rtx <> ssrc)%N -> (fec = 0 \/ fec <> ssrc)%N -> (rtx = 0 \/ fec = 0 \/ rtx <> fec)%N ->
+  track_details_media mid k
+    (sender_attrs (Some {| sn_encs := [{| e_track := Some tr; e_ssrc := ssrc; e_rtx := rtx; e_fec := fec |}];
+                           sn_negotiated := neg; sn_sent := sent; sn_stopped := stopped |}))
+  = Ok [{| td_mid := mid; td_kind := k; td_stream := k_stream tr; td_id := k_id tr;
+           td_ssrcs := [ssrc]; td_rtx := nz rtx; td_fec := nz fec; td_rids := [] |}].
+Proof. exact roundtrip_single. Qed.
+Print Assumptions c12_track_details_roundtrip.
+
 (* premises are satisfiable on non-trivial states *)
+Example c12_roundtrip_nontrivial :
+  track_details_media "3" Video
+    (sender_attrs (Some (single_sender {| k_id := "cam"; k_stream := "room"; k_rid := "" |} 4000000000 17 23)))
+  = Ok [{| td_mid := "3"; td_kind := Video; td_stream := "room"; td_id := "cam";
+           td_ssrcs := [4000000000%N]; td_rtx := Some 17%N; td_fec := Some 23%N; td_rids := [] |}].
+Proof. vm_compute. reflexivity. Qed.
+
 Example c12_sections_nontrivial :
   let p := run_ops (pc_init false)
              [OAddTrack Video {| i_trk := {| k_id := "v"; k_stream := "s"; k_rid := "" |};
